@@ -7,6 +7,7 @@ import (
 	"errors"
 	"io"
 
+	"google.golang.org/grpc"
 	"google.golang.org/grpc/encoding"
 	_ "google.golang.org/grpc/encoding/gzip"
 
@@ -99,4 +100,27 @@ func (cntCompressor) Decompress(r io.Reader) (io.Reader, error) {
 	return &cntReader{n: int(binary.BigEndian.Uint32(h[0:])), key: binary.BigEndian.Uint32(h[4:]), idx: int(binary.BigEndian.Uint32(h[8:]))}, nil
 }
 
-func init() { encoding.RegisterCompressor(cntCompressor{}) }
+func init() {
+	encoding.RegisterCompressor(cntCompressor{})
+	// Process-global lazy initialisation (compress/flate's fixed Huffman tables,
+	// gzip pools' New functions) must not fall into whichever run happens to
+	// use gzip first: do one round trip through every gzip path now.
+	var zb bytes.Buffer
+	zw := gzip.NewWriter(&zb)
+	zw.Write([]byte("warm-up warm-up warm-up"))
+	zw.Close()
+	if zr, err := gzip.NewReader(bytes.NewReader(zb.Bytes())); err == nil {
+		io.ReadAll(zr)
+	}
+	if c := encoding.GetCompressor("gzip"); c != nil {
+		var cb bytes.Buffer
+		if wc, err := c.Compress(&cb); err == nil {
+			wc.Write([]byte("warm-up"))
+			wc.Close()
+		}
+		if r, err := c.Decompress(bytes.NewReader(cb.Bytes())); err == nil {
+			io.ReadAll(r)
+		}
+	}
+	grpc.NewGZIPDecompressor().Do(bytes.NewReader(zb.Bytes()))
+}
